@@ -960,6 +960,13 @@ class InlinedExpressionGenMapper(
             local_ctx.var_to_reduction_unique_name[var_name]: bound_exprs
             for var_name, bound_exprs in expr.bounds.items()}
 
+        if not renamed_bounds:
+            # Nothing to reduce over (axis=() or a 0-d operand): reduce over a
+            # single-trip loop. loopy "eliminates" a reduction without inames,
+            # i.e. drops the operation (any/all), and fails on a nested one.
+            renamed_bounds = {
+                state.var_name_gen(f"_pt_{loopy_redn_op}_unit"): (0, 1)}
+
         inner_expr = self.rec(inner_expr, prstnt_ctx,
                               local_ctx.copy(reduction_bounds=renamed_bounds))
 
